@@ -477,10 +477,69 @@ Proof.
   - intros x y [].
 Qed.
 
+(* multi-file mode never takes the pack-boundary branch: every push emits one contig of the current round whose
+   priority is the sample's entry or the fresh next_priority; no contiguity of samples is needed *)
+Record MInv (st : pstate) : Prop := {
+  m_lo : (det_prio_start - Z.of_N (ps_count st) <= ps_next st)%Z;
+  m_hi : (ps_next st <= det_prio_start)%Z;
+  m_pr : forall s p, prio_get s (ps_prios st) = Some p -> (ps_next st < p <= det_prio_start)%Z
+}.
+Definition mtask_ok (r : nat) (lo : Z) (x : task) : Prop :=
+  t_tok x = false /\ t_round x = r /\ (lo < t_prio x)%Z.
+
+Lemma minv_push_all : forall R pack n l st,
+  MInv st -> (Z.of_N (ps_count st) + Z.of_nat (length l) + 2 < det_prio_start - i32_min)%Z ->
+  MInv (fst (push_all R false pack n st l)) /\
+  ps_count (fst (push_all R false pack n st l)) = (ps_count st + N.of_nat (length l))%N /\
+  Forall (mtask_ok (ps_rnd st) (det_prio_start - (Z.of_N (ps_count st) + Z.of_nat (length l)) - 1))
+         (tasks_of (snd (push_all R false pack n st l))).
+Proof.
+  intros R pack n l. induction l as [|inp l IH]; intros st M Hb.
+  - cbn [push_all fst snd tasks_of length]. split; [exact M|]. split; [cbn; lia|constructor].
+  - cbn [push_all fst snd length] in *. pose proof prio_start_val as PV. unfold i32_min in Hb.
+    destruct M as [Mlo Mhi Mpr].
+    set (s := fst (fst (fst inp))).
+    assert (ST : exists cur prios1 next1,
+       push_one R false pack n st inp
+       = (mk_pstate prios1 next1 (ps_count st + 1) (ps_seq st + 1) (ps_rnd st),
+          [PPush (mk_task false (fst (fst inp)) (snd (fst inp)) cur (snd inp) (ps_seq st) (ps_rnd st))]) /\
+       (next1 < cur <= det_prio_start)%Z /\ (ps_next st - 1 <= next1 <= ps_next st)%Z /\
+       (forall s' p, prio_get s' prios1 = Some p -> (next1 < p <= det_prio_start)%Z)).
+    { unfold push_one. cbn [andb]. fold s. destruct (prio_get s (ps_prios st)) as [p|] eqn:EG; cbn [fst snd].
+      - exists p, (ps_prios st), (ps_next st). split; [reflexivity|]. pose proof (Mpr _ _ EG).
+        split; [lia|]. split; [lia|exact Mpr].
+      - rewrite wrap_i32_id by (unfold i32_min, i32_max; lia).
+        exists (ps_next st), (prio_set s (ps_next st) (ps_prios st)), (ps_next st - 1)%Z. split; [reflexivity|].
+        split; [lia|]. split; [lia|]. intros s' p H. destruct (N.eq_dec s' s) as [->|ne].
+        + rewrite prio_get_set_same in H. inversion H; subst. lia.
+        + rewrite prio_get_set_other in H by exact ne. pose proof (Mpr _ _ H). lia. }
+    destruct ST as [cur [prios1 [next1 [E [Hc [Hn1 Hp]]]]]]. rewrite E. cbn [fst snd].
+    set (st1 := mk_pstate prios1 next1 (ps_count st + 1) (ps_seq st + 1) (ps_rnd st)).
+    assert (M1 : MInv st1).
+    { constructor; cbn [st1 ps_next ps_count ps_prios]; [rewrite N2Z.inj_add; lia|lia|exact Hp]. }
+    destruct (IH st1 M1) as [M2 [C2 F2]].
+    { cbn [st1 ps_count]. rewrite N2Z.inj_add. unfold i32_min. lia. }
+    split; [exact M2|]. split; [rewrite C2; cbn [st1 ps_count]; lia|].
+    cbn [app tasks_of]. constructor.
+    + unfold mtask_ok. cbn [t_tok t_round t_prio]. repeat split. lia.
+    + cbn [st1 ps_rnd ps_count] in F2. eapply Forall_impl; [|exact F2].
+      intros x [A1 [A2 A3]]. repeat split; try assumption. rewrite N2Z.inj_add in A3. lia.
+Qed.
+
+Lemma minv_init : MInv pstate0.
+Proof. constructor; cbn [pstate0 ps_next ps_count ps_prios prio_get]; try lia. intros s p H. discriminate. Qed.
+
+Lemma ssorted_same_round_contigs : forall r lo T, Forall (mtask_ok r lo) T -> StronglySorted rk_le T.
+Proof.
+  intros r lo T H. induction H as [|x T Hx HT IH]; constructor; [exact IH|].
+  apply Forall_forall. intros y Hy. rewrite Forall_forall in HT. specialize (HT y Hy).
+  destruct Hx as [A1 [A2 _]]. destruct HT as [_ [B2 _]].
+  right. split; [congruence|left; exact A1].
+Qed.
+
 Section MultiFile.
   Variables (n : nat) (first rest : list input).
   Hypothesis Hn : (0 < n)%nat.
-  Hypothesis Hcontig : contiguous [] (first ++ rest).
   Hypothesis Hbound : (2 * Z.of_nat (length (first ++ rest)) + 4 < det_prio_start - 1000000)%Z.
 
   Let a := push_all current_rule false 1 n pstate0 first.
@@ -502,45 +561,36 @@ Section MultiFile.
     rewrite <- !app_assoc. reflexivity.
   Qed.
 
-  Lemma mf_ginv : GInv n 0 (seen_all [] first) (fst a) (tasks_of (snd a)) /\
-                  GInv n 1 (seen_all (seen_all [] first) rest) (fst c) (tasks_of (snd c)) /\
-                  ps_count (fst a) = N.of_nat (length first) /\ ps_count (fst c) = N.of_nat (length (first ++ rest)).
+  Lemma mf_facts :
+    Forall (mtask_ok 0 1000000) (tasks_of (snd a)) /\ Forall (mtask_ok 1 1000000) (tasks_of (snd c)).
   Proof.
-    destruct (contiguous_app _ _ _ Hcontig) as [C1 C2].
-    rewrite app_length, Nat2Z.inj_add in Hbound. pose proof prio_start_val.
-    destruct (ginv_push_all n false 1 current_rule current_rule_tok current_rule_low first 0 [] pstate0 []
-                (ginv_init n) C1) as [G1 N1].
+    pose proof prio_start_val as PV. rewrite app_length, Nat2Z.inj_add in Hbound.
+    destruct (minv_push_all current_rule 1 n first pstate0 minv_init) as [M1 [C1 F1]].
     { cbn [pstate0 ps_count]. unfold i32_min. lia. }
-    fold a in G1, N1. cbn [app] in G1.
-    pose proof (ginv_restart _ _ _ _ _ G1) as G1'. rewrite mf_rnd_a in G1'. fold b in G1'.
-    destruct (ginv_push_all n false 1 current_rule current_rule_tok current_rule_low rest 1 _ (fst b) [] G1' C2) as [G2 N2].
-    { unfold b, flush_block. cbn [fst ps_count]. rewrite N1. cbn [pstate0 ps_count]. unfold i32_min. lia. }
-    fold c in G2, N2. cbn [app] in G2. split; [exact G1|]. split; [exact G2|].
-    split; [rewrite N1; cbn [pstate0 ps_count]; lia|].
-    rewrite N2. unfold b, flush_block. cbn [fst ps_count]. rewrite N1, app_length. cbn [pstate0 ps_count]. lia.
-  Qed.
-
-  (* with single = false nothing but contigs of the current round is emitted *)
-  Lemma ginv_all_contigs : forall r seen st T x, GInv n r seen st T -> ps_rnd st = r -> In x T ->
-    t_tok x = false /\ t_round x = r.
-  Proof.
-    intros r seen st T x G Hr Hx. destruct (g_top _ _ _ _ _ G x Hx) as [H1 H2]. rewrite Hr in H2.
-    destruct H2 as [L|[L1 L2]]; [lia|]. split; assumption.
+    fold a in M1, C1, F1. cbn [pstate0 ps_count ps_rnd] in F1.
+    assert (CZ : Z.of_N (ps_count (fst a)) = Z.of_nat (length first)).
+    { rewrite C1. cbn [pstate0 ps_count]. rewrite N.add_0_l. apply nat_N_Z. }
+    assert (MB : MInv (fst b)).
+    { destruct M1 as [A1 A2 A3]. constructor; unfold b, flush_block; cbn [fst ps_next ps_count ps_prios]; assumption. }
+    destruct (minv_push_all current_rule 1 n rest (fst b) MB) as [M2 [C2 F2]].
+    { unfold b, flush_block. cbn [fst ps_count]. unfold i32_min. lia. }
+    fold c in M2, C2, F2.
+    assert (RB : ps_rnd (fst b) = 1%nat) by (unfold b, flush_block; cbn [fst ps_rnd]; rewrite mf_rnd_a; reflexivity).
+    rewrite RB in F2. unfold b, flush_block in F2. cbn [fst ps_count] in F2.
+    split.
+    - eapply Forall_impl; [|exact F1]. intros x [A1 [A2 A3]]. repeat split; try assumption. cbn [Z.of_N] in A3. lia.
+    - eapply Forall_impl; [|exact F2]. intros x [A1 [A2 A3]]. repeat split; try assumption. lia.
   Qed.
 
   Theorem multifile_wf : wf_script n 2 (multifile_script current_rule n first rest).
   Proof.
-    destruct mf_ginv as [G1 [G2 [N1 N2]]].
+    destruct mf_facts as [F1 F2].
     set (T1 := tasks_of (snd a)) in *. set (T2 := tasks_of (snd c)) in *.
     pose proof final_prio_val as FV. pose proof flush_prio_val as FLV. pose proof prio_start_val as PV.
-    rewrite app_length, Nat2Z.inj_add in Hbound.
     assert (H1 : forall x, In x T1 -> t_tok x = false /\ t_round x = 0%nat /\ (1000000 < t_prio x)%Z).
-    { intros x Hx. destruct (ginv_all_contigs _ _ _ _ x G1 mf_rnd_a Hx) as [E1 E2].
-      pose proof (ginv_prio_floor _ _ _ _ _ x G1 Hx) as F. rewrite N1, nat_N_Z in F. repeat split; try assumption. lia. }
+    { intros x Hx. rewrite Forall_forall in F1. exact (F1 x Hx). }
     assert (H2 : forall x, In x T2 -> t_tok x = false /\ t_round x = 1%nat /\ (1000000 < t_prio x)%Z).
-    { intros x Hx. destruct (ginv_all_contigs _ _ _ _ x G2 mf_rnd_c Hx) as [E1 E2].
-      pose proof (ginv_prio_floor _ _ _ _ _ x G2 Hx) as F. rewrite N2, nat_N_Z, app_length, Nat2Z.inj_add in F.
-      repeat split; try assumption. lia. }
+    { intros x Hx. rewrite Forall_forall in F2. exact (F2 x Hx). }
     assert (ET : tasks_of (multifile_script current_rule n first rest) = (T1 ++ repeat ftok n) ++ (T2 ++ repeat fin n)).
     { rewrite mf_script. rewrite !tasks_of_app. cbn [tasks_of]. rewrite !tasks_of_app, !tasks_of_repeat_push.
       cbn [tasks_of app]. rewrite app_nil_r. reflexivity. }
@@ -554,11 +604,11 @@ Section MultiFile.
       - apply repeat_spec in Hx. subst x. split; [reflexivity|]. cbn. discriminate. }
     constructor.
     - rewrite ET. apply ssorted_app_intro.
-      + apply ssorted_app_intro; [apply (g_sorted _ _ _ _ _ G1)| |].
+      + apply ssorted_app_intro; [apply (ssorted_same_round_contigs _ _ _ F1)| |].
         * apply ssorted_repeat. right. split; [reflexivity|right; reflexivity].
         * intros x y Hx Hy. apply repeat_spec in Hy. subst y. destruct (H1 x Hx) as [E1 [E2 _]].
           right. cbn [t_round t_tok ftok]. split; [exact E2|left; exact E1].
-      + apply ssorted_app_intro; [apply (g_sorted _ _ _ _ _ G2)| |].
+      + apply ssorted_app_intro; [apply (ssorted_same_round_contigs _ _ _ F2)| |].
         * apply ssorted_repeat. right. split; [reflexivity|right; reflexivity].
         * intros x y Hx Hy. apply repeat_spec in Hy. subst y. destruct (H2 x Hx) as [E1 [E2 _]].
           right. cbn [t_round t_tok fin]. split; [exact E2|left; exact E1].
@@ -611,3 +661,178 @@ Section MultiFile.
     - exact Hn.
   Qed.
 End MultiFile.
+
+(* ------------------------------------------------------------------ the quiescent discipline, no priorities at all:
+   every phase pushes its contigs, waits until the queue is empty (drain), pushes the N tokens, waits again *)
+Definition qphase := (list task * task)%type.
+Fixpoint quiescent_script (n : nat) (phs : list qphase) : list pact :=
+  match phs with
+  | [] => [PClose]
+  | ph :: rest => map PPush (fst ph) ++ [PWaitEmpty] ++ repeat (PPush (snd ph)) n ++ [PWaitEmpty]
+                  ++ quiescent_script n rest
+  end.
+Fixpoint tagged (k : nat) (phs : list qphase) : Prop :=
+  match phs with
+  | [] => True
+  | ph :: rest => Forall (fun c => t_tok c = false /\ t_round c = k) (fst ph) /\
+                  t_tok (snd ph) = true /\ t_round (snd ph) = k /\ tagged (S k) rest
+  end.
+
+Lemma tasks_of_map_push : forall l, tasks_of (map PPush l) = l.
+Proof. induction l as [|a l IH]; [reflexivity|]. cbn [map tasks_of]. f_equal. exact IH. Qed.
+
+Lemma in_push_tasks : forall t l, In (PPush t) l -> In t (tasks_of l).
+Proof.
+  intros t l. induction l as [|p l IH]; intros H; [contradiction|]. destruct H as [->|H]; [left; reflexivity|].
+  destruct p; cbn [tasks_of]; [right|idtac|idtac]; apply IH; exact H.
+Qed.
+
+Lemma split_shift : forall (P Q l1 l2 : list pact) u, l1 ++ u :: l2 = P ++ Q -> ~ In u P ->
+  exists A', l1 = P ++ A' /\ Q = A' ++ u :: l2.
+Proof.
+  induction P as [|p P IH]; intros Q l1 l2 u E Hn.
+  - exists l1. split; [reflexivity|]. symmetry. exact E.
+  - destruct l1 as [|a l1]; cbn [app] in E; inversion E; subst.
+    + exfalso. apply Hn. left. reflexivity.
+    + destruct (IH Q l1 l2 u H1) as [A' [E1 E2]]; [intro H; apply Hn; right; exact H|].
+      exists A'. split; [rewrite E1; reflexivity|exact E2].
+Qed.
+
+Lemma quiescent_tasks : forall n phs,
+  tasks_of (quiescent_script n phs)
+  = match phs with [] => [] | ph :: rest => fst ph ++ repeat (snd ph) n ++ tasks_of (quiescent_script n rest) end.
+Proof.
+  intros n [|ph rest]; [reflexivity|]. cbn [quiescent_script]. rewrite !tasks_of_app, tasks_of_map_push, tasks_of_repeat_push.
+  reflexivity.
+Qed.
+
+Lemma quiescent_rounds : forall n phs k, tagged k phs ->
+  forall x, In x (tasks_of (quiescent_script n phs)) -> (k <= t_round x < k + length phs)%nat.
+Proof.
+  intros n phs. induction phs as [|ph rest IH]; intros k T x Hx; [contradiction|].
+  rewrite quiescent_tasks in Hx. cbn [tagged] in T. destruct T as [T1 [T2 [T3 T4]]]. cbn [length].
+  apply in_app_or in Hx. destruct Hx as [Hx|Hx].
+  - rewrite Forall_forall in T1. destruct (T1 x Hx) as [_ E]. lia.
+  - apply in_app_or in Hx. destruct Hx as [Hx|Hx].
+    + apply repeat_spec in Hx. subst x. lia.
+    + specialize (IH (S k) T4 x Hx). lia.
+Qed.
+
+Lemma quiescent_wf_gen : forall n phs k, (0 < n)%nat -> tagged k phs ->
+  let sc := quiescent_script n phs in
+  StronglySorted rk_le (tasks_of sc) /\
+  (forall j, cnt (is_tokk j) (tasks_of sc) = if Nat.leb k j && Nat.ltb j (k + length phs) then n else 0%nat) /\
+  (forall A x B y C, sc = A ++ PPush x :: B ++ PPush y :: C ->
+     (t_round x = t_round y /\ t_tok x = false /\ t_tok y = true) \/ (t_round x < t_round y)%nat -> In PWaitEmpty B).
+Proof.
+  intros n phs. induction phs as [|ph rest IH]; intros k Hn T; cbv zeta.
+  - cbn [quiescent_script tasks_of length]. split; [constructor|]. split.
+    + intros j. replace (k + 0)%nat with k by lia. destruct (Nat.leb_spec k j); cbn [andb]; [|reflexivity].
+      assert (Nat.ltb j k = false) as -> by (apply Nat.ltb_ge; lia). reflexivity.
+    + intros A x B y C E _. exfalso. destruct A as [|a [|a' A]]; cbn [app] in E; inversion E.
+  - cbn [tagged] in T. destruct T as [T1 [T2 [T3 T4]]].
+    destruct (IH (S k) Hn T4) as [IS [IC ISP]]. cbv zeta in IS, IC, ISP.
+    pose proof (quiescent_rounds n rest (S k) T4) as IR.
+    rewrite Forall_forall in T1.
+    split; [|split].
+    + rewrite quiescent_tasks. apply ssorted_app_intro.
+      * clear - T1. induction (fst ph) as [|c cs IHc]; constructor.
+        -- apply IHc. intros x Hx. apply T1. right. exact Hx.
+        -- apply Forall_forall. intros y Hy. destruct (T1 c (or_introl eq_refl)) as [E1 E2].
+           destruct (T1 y (or_intror Hy)) as [_ E4]. right. split; [congruence|left; exact E1].
+      * apply ssorted_app_intro; [apply ssorted_repeat; right; split; [reflexivity|right; exact T2]|exact IS|].
+        intros x y Hx Hy. apply repeat_spec in Hx. subst x. specialize (IR y Hy). left. lia.
+      * intros x y Hx Hy. destruct (T1 x Hx) as [E1 E2]. apply in_app_or in Hy. destruct Hy as [Hy|Hy].
+        -- apply repeat_spec in Hy. subst y. right. split; [congruence|left; exact E1].
+        -- specialize (IR y Hy). left. lia.
+    + intros j. rewrite quiescent_tasks, !cnt_app, cnt_repeat, IC. cbn [length].
+      rewrite (cnt_zero (is_tokk j) (fst ph)) by (intros x Hx; apply is_tokk_ctg; apply (T1 x Hx)).
+      rewrite (is_tokk_tok j _ T2), T3.
+      destruct (Nat.eqb_spec k j).
+      * subst j. assert (Nat.leb (S k) k = false) as -> by (apply Nat.leb_gt; lia).
+        assert (Nat.leb k k = true) as -> by (apply Nat.leb_le; lia).
+        assert (Nat.ltb k (k + S (length rest)) = true) as -> by (apply Nat.ltb_lt; lia). cbn [andb]. lia.
+      * destruct (Nat.leb_spec k j); destruct (Nat.leb_spec (S k) j); try lia; cbn [andb]; try lia.
+        destruct (Nat.ltb_spec j (S k + length rest)); destruct (Nat.ltb_spec j (k + S (length rest))); lia.
+    + intros A x B y C E H.
+      set (P1 := map PPush (fst ph)) in *. set (TK := repeat (PPush (snd ph)) n) in *.
+      assert (Esc : quiescent_script n (ph :: rest) = P1 ++ PWaitEmpty :: TK ++ PWaitEmpty :: quiescent_script n rest).
+      { cbn [quiescent_script]. fold P1 TK. cbn [app]. reflexivity. }
+      rewrite Esc in E. symmetry in E.
+      assert (Hx_sc : In x (tasks_of (quiescent_script n (ph :: rest)))) by (rewrite Esc, <- E; apply tasks_of_in).
+      assert (Hy_sc : In y (tasks_of (quiescent_script n (ph :: rest))))
+        by (rewrite Esc, <- E, app_comm_cons, app_assoc; apply tasks_of_in).
+      rewrite quiescent_tasks in Hx_sc, Hy_sc.
+      assert (P1t : forall t, In (PPush t) P1 -> t_tok t = false /\ t_round t = k).
+      { intros t Ht. apply in_push_tasks in Ht. unfold P1 in Ht. rewrite tasks_of_map_push in Ht. apply T1. exact Ht. }
+      assert (TKt : forall t, In (PPush t) TK -> t = snd ph).
+      { intros t Ht. apply repeat_spec in Ht. inversion Ht. reflexivity. }
+      assert (RSt : forall t, In (PPush t) (quiescent_script n rest) -> (S k <= t_round t)%nat).
+      { intros t Ht. apply in_push_tasks in Ht. apply IR in Ht. lia. }
+      (* where is x ? *)
+      destruct (le_lt_dec (S k) (t_round x)) as [Lx|Lx].
+      * (* x, hence y, in the later phases *)
+        assert (Ly : (S k <= t_round y)%nat) by (destruct H as [[H _]|H]; lia).
+        assert (NX : ~ In (PPush x) (P1 ++ PWaitEmpty :: TK ++ [PWaitEmpty])).
+        { intro Hin. apply in_app_or in Hin. destruct Hin as [Hin|[Hin|Hin]]; [destruct (P1t x Hin); lia|discriminate|].
+          apply in_app_or in Hin. destruct Hin as [Hin|[Hin|[]]]; [apply TKt in Hin; subst x; lia|discriminate]. }
+        assert (E' : A ++ PPush x :: B ++ PPush y :: C = (P1 ++ PWaitEmpty :: TK ++ [PWaitEmpty]) ++ quiescent_script n rest).
+        { rewrite E. rewrite <- !app_assoc. cbn [app]. rewrite <- app_assoc. reflexivity. }
+        destruct (split_shift _ _ _ _ _ E' NX) as [A' [_ E2]]. eapply ISP; [exact E2|exact H].
+      * (* x belongs to phase k *)
+        assert (Rx : t_round x = k).
+        { apply in_app_or in Hx_sc. destruct Hx_sc as [Hx|Hx]; [apply (T1 x Hx)|].
+          apply in_app_or in Hx. destruct Hx as [Hx|Hx]; [apply repeat_spec in Hx; subst x; exact T3|].
+          apply IR in Hx. lia. }
+        destruct H as [[H1 [H2 H3]]|H].
+        -- (* contig x and token y of phase k: the drain wait lies between *)
+           eapply (mid_wait_split A B C P1 (TK ++ PWaitEmpty :: quiescent_script n rest) (PPush x) (PPush y) PWaitEmpty E);
+             try discriminate.
+           ++ intro Hin. apply in_app_or in Hin. destruct Hin as [Hin|[Hin|Hin]];
+                [apply TKt in Hin; subst x; congruence|discriminate|apply RSt in Hin; lia].
+           ++ intro Hin. destruct (P1t y Hin). congruence.
+        -- (* y in a later phase: the wait after the tokens lies between *)
+           assert (E' : A ++ PPush x :: B ++ PPush y :: C = (P1 ++ PWaitEmpty :: TK) ++ PWaitEmpty :: quiescent_script n rest).
+           { rewrite E. rewrite <- app_assoc. reflexivity. }
+           eapply (mid_wait_split A B C _ _ (PPush x) (PPush y) PWaitEmpty E'); try discriminate.
+           ++ intro Hin. apply RSt in Hin. lia.
+           ++ intro Hin. apply in_app_or in Hin. destruct Hin as [Hin|[Hin|Hin]];
+                [destruct (P1t y Hin); lia|discriminate|apply TKt in Hin; subst y; lia].
+Qed.
+
+Theorem quiescent_wf : forall n phs, (0 < n)%nat -> tagged 0 phs ->
+  wf_script n (length phs) (quiescent_script n phs).
+Proof.
+  intros n phs Hn T. destruct (quiescent_wf_gen n phs 0 Hn T) as [S1 [S2 S3]]. cbv zeta in *.
+  constructor.
+  - exact S1.
+  - intros x Hx. pose proof (quiescent_rounds n phs 0 T x Hx). lia.
+  - intros k Hk. rewrite S2. cbn [Nat.leb andb plus]. assert (Nat.ltb k (length phs) = true) as -> by (apply Nat.ltb_lt; lia). reflexivity.
+  - intros A x B y C E H1 H2 H3. right. eapply S3; [exact E|]. left. repeat split; assumption.
+  - intros A x B y C E H. right. eapply S3; [exact E|]. right. exact H.
+  - exact Hn.
+Qed.
+
+Lemma quiescent_expected : forall n phs k i, tagged k phs -> (i < length phs)%nat ->
+  expected_round (quiescent_script n phs) (k + i) = fst (nth i phs ([], mk_task false (0%N,0%N) 0 0 0 0 0)).
+Proof.
+  intros n phs. induction phs as [|ph rest IH]; intros k i T Hi; [cbn in Hi; lia|].
+  cbn [tagged] in T. destruct T as [T1 [T2 [T3 T4]]]. rewrite Forall_forall in T1.
+  unfold expected_round. rewrite quiescent_tasks, !filter_app.
+  destruct i as [|i].
+  - cbn [nth]. rewrite Nat.add_0_r.
+    rewrite (filter_id_all _ (in_round k) (fst ph)).
+    + rewrite (filter_nil_all _ (in_round k) (repeat (snd ph) n)).
+      * rewrite (filter_nil_all _ (in_round k) (tasks_of (quiescent_script n rest))); [rewrite !app_nil_r; reflexivity|].
+        intros x Hx. pose proof (quiescent_rounds n rest (S k) T4 x Hx). unfold in_round.
+        assert (Nat.eqb (t_round x) k = false) as -> by (apply Nat.eqb_neq; lia). apply andb_false_r.
+      * intros x Hx. apply repeat_spec in Hx. subst x. unfold in_round. rewrite T2. reflexivity.
+    + intros x Hx. destruct (T1 x Hx) as [E1 E2]. unfold in_round. rewrite E1, E2, Nat.eqb_refl. reflexivity.
+  - cbn [nth]. cbn [length] in Hi.
+    rewrite (filter_nil_all _ (in_round (k + S i)) (fst ph)).
+    + rewrite (filter_nil_all _ (in_round (k + S i)) (repeat (snd ph) n)).
+      * cbn [app]. replace (k + S i)%nat with (S k + i)%nat by lia. apply (IH (S k) i T4). lia.
+      * intros x Hx. apply repeat_spec in Hx. subst x. unfold in_round. rewrite T2. reflexivity.
+    + intros x Hx. destruct (T1 x Hx) as [E1 E2]. unfold in_round.
+      assert (Nat.eqb (t_round x) (k + S i) = false) as -> by (apply Nat.eqb_neq; lia). apply andb_false_r.
+Qed.
